@@ -429,7 +429,7 @@ func (fr *Frame) enterLoop(li *loopInfo, b *ssa.BasicBlock, ins []edge, cur *Sta
 			continue
 		}
 		for j, g := range gs {
-			vc.oblige("loopinit", fmt.Sprintf("%s/loop%d/init#%d.%d", key, li.num, i+1, j+1), c.Tags, pc, g, b.Instrs[0].Pos(), c.Text)
+			vc.oblige("loopinit", fmt.Sprintf("%s/loop%d/init#%d.%d", key, li.num, i+1, j+1), fr.loopTags(c.Tags), pc, g, b.Instrs[0].Pos(), c.Text)
 		}
 	}
 	// 3. havoc everything the body may change
@@ -592,7 +592,7 @@ func (fr *Frame) backEdge(from, to *ssa.BasicBlock, cond T, st *State) {
 			continue
 		}
 		for j, g := range gs {
-			vc.oblige("loopstep", fmt.Sprintf("%s/loop%d/step#%d.%d", key, li.num, i+1, j+1), c.Tags, cond, g, pos, c.Text)
+			vc.oblige("loopstep", fmt.Sprintf("%s/loop%d/step#%d.%d", key, li.num, i+1, j+1), fr.loopTags(c.Tags), cond, g, pos, c.Text)
 		}
 	}
 	for i, c := range li.decs {
@@ -611,7 +611,7 @@ func (fr *Frame) backEdge(from, to *ssa.BasicBlock, cond T, st *State) {
 		if v.Typ != nil && isUnsigned(v.Typ) {
 			goal = app("bvult", v.Ts[0], old)
 		}
-		vc.oblige("decreases", fmt.Sprintf("%s/loop%d/decreases#%d", key, li.num, i+1), c.Tags, cond, goal, pos, c.Text)
+		vc.oblige("decreases", fmt.Sprintf("%s/loop%d/decreases#%d", key, li.num, i+1), fr.loopTags(c.Tags), cond, goal, pos, c.Text)
 	}
 	if len(li.mods) > 0 && li.env0 != nil {
 		fr.frameObligations(li.mods, li.env0, st, cond, fmt.Sprintf("%s/loop%d/frame", key, li.num), pos)
@@ -619,6 +619,15 @@ func (fr *Frame) backEdge(from, to *ssa.BasicBlock, cond T, st *State) {
 	for _, phi := range phis {
 		fr.regs[phi] = saved[phi]
 	}
+}
+
+// loopTags: obligations of loops inside inlined functions/closures count for the properties of the root
+// function too (their own contract block may carry no tags, and would otherwise never be selected).
+func (fr *Frame) loopTags(tags []string) []string {
+	if fr.isRoot || fr.vc.RootFC == nil {
+		return tags
+	}
+	return unionTags(tags, fr.vc.RootFC.Tags)
 }
 
 func (vc *VC) contractError(c *Clause, err error) {
